@@ -19,6 +19,7 @@ import collections
 import logging
 import os
 import sys
+import traceback
 from typing import Optional
 
 import tabulate
@@ -143,7 +144,14 @@ class BenchmarkActor(actor.RallyActor):
 
     @actor.no_retry("race control")  # pylint: disable=no-value-for-parameter
     def receiveMsg_TaskFinished(self, msg, sender):
-        self.coordinator.on_task_finished(msg.metrics)
+        try:
+            self.coordinator.on_task_finished(msg.metrics)
+        except BaseException:
+            # Don't leave this to no_retry: it notifies the sender (the driver) which reports the failure back to us. The benchmark
+            # may complete before that notification arrives and would then be considered successful.
+            self.logger.exception("Error in race control")
+            self.receiveMsg_BenchmarkFailure(actor.BenchmarkFailure(traceback.format_exc()), sender)
+            return
         # We choose *NOT* to reset our own metrics store's timer as this one is only used to collect complete metrics records from
         # other stores (used by driver and mechanic). Hence there is no need to reset the timer in our own metrics store.
         self.send(self.mechanic, mechanic.ResetRelativeTime(msg.next_task_scheduled_in))
